@@ -62,3 +62,72 @@ Lemma insert_at_end_refuted :
   valid_sig [(PosD, "a")] = true /\ valid_sig (insert_at_end "db" [(PosD, "a")]) = false
   /\ valid_sig (insert_after_last_pos "db" [(PosD, "a")]) = true.
 Proof. repeat split. Qed.
+
+(** ** the text level: from the name of a starred parameter back to its first star.
+    For EVERY document [pre ++ stars ++ gap ++ rest] in which [stars] is a non-empty run of
+    [*], [gap] is any run of ASCII white space (blanks, tabs, line breaks) and [pre] does not
+    end in a star, the walk from the name lands exactly on the first star: the new parameter
+    goes in front of the star(s), never between them, never between star and name, never on
+    an earlier line. *)
+From Coq Require Import NArith Arith Lia.
+Close Scope string_scope.
+Lemma nth_error_app_mid {A} (a : list A) x b : nth_error (a ++ x :: b) (List.length a) = Some x.
+Proof. induction a as [|y a IH]; [reflexivity|exact IH]. Qed.
+
+Lemma back_while_run p (pre run rest : list N) :
+  Forall (fun b => p b = true) run ->
+  match rev pre with [] => True | b :: _ => p b = false end ->
+  back_while p (pre ++ run ++ rest) (List.length (pre ++ run)) = List.length pre.
+Proof.
+  intros Hrun Hpre. revert rest. induction run as [|x run IH] using rev_ind; intros rest.
+  - rewrite app_nil_r. cbn [app].
+    destruct pre as [|y pre'] using rev_ind; [reflexivity|]. clear IHpre'.
+    rewrite rev_app_distr in Hpre. cbn in Hpre.
+    replace (List.length (pre' ++ [y])) with (S (List.length pre')) by (rewrite app_length; cbn [List.length]; lia).
+    cbn [back_while].
+    replace ((pre' ++ [y]) ++ rest) with (pre' ++ y :: rest) by (rewrite <- app_assoc; reflexivity).
+    rewrite nth_error_app_mid. now rewrite Hpre.
+  - apply Forall_app in Hrun as [Hr Hx]. inversion Hx as [|? ? Px _]; subst.
+    replace (List.length (pre ++ run ++ [x])) with (S (List.length (pre ++ run)))
+      by (rewrite !app_length; cbn [List.length]; lia).
+    cbn [back_while].
+    replace (pre ++ (run ++ [x]) ++ rest) with ((pre ++ run) ++ x :: rest)
+      by (rewrite <- !app_assoc; reflexivity).
+    rewrite nth_error_app_mid, Px.
+    replace ((pre ++ run) ++ x :: rest) with (pre ++ run ++ (x :: rest)) by (now rewrite <- app_assoc).
+    apply IH. exact Hr.
+Qed.
+
+Theorem star_start_lands_on_the_first_star (pre stars gap rest : list N) :
+  stars <> [] -> Forall (fun b => b = star_b) stars -> Forall (fun b => ws_b b = true) gap ->
+  match rev pre with [] => True | b :: _ => b <> star_b end ->
+  star_start (pre ++ stars ++ gap ++ rest) (List.length (pre ++ stars ++ gap)) = List.length pre.
+Proof.
+  intros Hne Hs Hg Hp. unfold star_start.
+  replace (pre ++ stars ++ gap ++ rest) with ((pre ++ stars) ++ gap ++ rest) by (now rewrite <- app_assoc).
+  replace (List.length (pre ++ stars ++ gap)) with (List.length ((pre ++ stars) ++ gap)) by (now rewrite <- app_assoc).
+  rewrite (back_while_run ws_b (pre ++ stars) gap rest Hg).
+  - replace ((pre ++ stars) ++ gap ++ rest) with (pre ++ stars ++ (gap ++ rest)) by (now rewrite <- app_assoc).
+    apply back_while_run.
+    + apply Forall_forall. intros b Hb. rewrite Forall_forall in Hs. rewrite (Hs b Hb). reflexivity.
+    + destruct (rev pre) as [|b r]; [exact I|]. apply N.eqb_neq. intros E. apply Hp. now symmetry.
+  - rewrite rev_app_distr. destruct stars as [|s0 stars'] using rev_ind; [contradiction|]. clear IHstars'.
+    rewrite rev_app_distr. cbn [rev app]. apply Forall_app in Hs as [_ Hs0]. inversion Hs0; subst. reflexivity.
+Qed.
+
+(** the three other walks, refuted on concrete signatures *)
+(** open paren, star, TAB, a, close paren *)
+Definition sig_tab : list N := [40; 42; 9; 97; 41]%N.
+(** open paren, star, star, k, close paren *)
+Definition sig_kw : list N := [40; 42; 42; 107; 41]%N.
+(** open paren, hash, c, LF, blank, star, a, close paren *)
+Definition sig_ml : list N := [40; 35; 99; 10; 32; 42; 97; 41]%N.
+Lemma star_start_old_refuted :
+  star_start_old sig_tab 3 = 3 /\ star_start sig_tab 3 = 1.
+Proof. vm_compute. split; reflexivity. Qed.
+Lemma star_start_rfind_refuted :
+  rfind_star sig_kw 3 = 2 /\ star_start sig_kw 3 = 1.
+Proof. vm_compute. split; reflexivity. Qed.
+Lemma star_start_s102_refuted :
+  star_start_s102 sig_ml 6 = 3 /\ star_start sig_ml 6 = 5.
+Proof. vm_compute. split; reflexivity. Qed.
